@@ -76,6 +76,7 @@ struct Run {
 	// model
 	uint64_t fed = 0, block_start = 0;
 	int cur_chain = 0; uint32_t lc = 0, lp = 0, pb = 0;
+	bool header_started = false;    // the encoder has begun to write the current Block's header (the Block is open from its point of view) although no input of the Block has been consumed yet
 	bool since_sync = false;        // a SYNC_FLUSH completed and no input has been supplied since
 	bool any_data = false;          // some input byte has been supplied to the encoder
 	unsigned calls_since_flush = 0; // lzma_code calls since the last completed flush / since init
@@ -140,16 +141,16 @@ static void check_flush_point(Run &r, const char *what, bool exact) {
 		violation("C12:flush-point-incomplete", "%s: decoder left %zu of %zu output bytes unconsumed", what, r.out.size() - (size_t)D.total_in, r.out.size());
 }
 
-enum LoopEnd { LE_DONE, LE_OPTIONS_ERROR, LE_PROG_ERROR, LE_DEAD, LE_MT_BOUNDARY };
+enum LoopEnd { LE_DONE, LE_OPTIONS_ERROR, LE_PROG_ERROR, LE_DEAD, LE_MT_BOUNDARY, LE_HEADER_PARTLY_OUT };
 
 // One action with `n` new input bytes, repeated protocol-correctly until it completes.
-static LoopEnd action_loop(Run &r, lzma_action action, size_t n, const char *what, bool stop_at_mt_boundary = false) {
+static LoopEnd action_loop(Run &r, lzma_action action, size_t n, const char *what, bool stop_at_mt_boundary = false, bool stop_in_header = false) {
 	lzma_stream &s = r.s;
 	static uint8_t dummy[1];
 	const uint8_t *in = r.P.data() ? r.P.data() + r.fed : dummy;
 	s.next_in = in; s.avail_in = n;
 	std::vector<uint8_t> win;
-	unsigned calls = 0; bool last_zero = false;
+	unsigned calls = 0; bool last_zero = false; size_t out_in_this_op = 0;
 	const size_t bound = 30000 + 8 * n;
 	for (;;) {
 		size_t w = next_window(r, calls); if (w == 0 && last_zero) w = 1; last_zero = w == 0;
@@ -160,7 +161,7 @@ static LoopEnd action_loop(Run &r, lzma_action action, size_t n, const char *wha
 		++calls; ++r.calls_since_flush;
 		size_t got = w - s.avail_out;
 		if (s.avail_in > ain || s.avail_out > w || s.next_in != in + (n - s.avail_in)) violation("C11:accounting", "%s: inconsistent buffer accounting", what);
-		r.out.insert(r.out.end(), win.data(), win.data() + got);
+		r.out.insert(r.out.end(), win.data(), win.data() + got); out_in_this_op += got;
 		const size_t consumed = n - s.avail_in;
 		if (ret == LZMA_STREAM_END) {
 			if (action == LZMA_RUN) violation("C12:stream-end-on-run", "%s: LZMA_RUN returned LZMA_STREAM_END", what);
@@ -171,6 +172,9 @@ static LoopEnd action_loop(Run &r, lzma_action action, size_t n, const char *wha
 			if (action == LZMA_RUN && s.avail_in == 0) { r.fed += consumed; return LE_DONE; }
 			// threaded encoder: the call came back (output full / time-out) with input still pending exactly where a Block of block_size
 			// bytes has just been completed - no Block is open, the next one has not been started
+			// single-threaded .xz encoder at the start of a Block: the call came back for lack of output space after it has begun to write the
+			// Block Header (1..11 bytes) and before any input of the Block was consumed
+			if (stop_in_header && consumed == 0 && out_in_this_op >= 1 && out_in_this_op <= 11 && r.in_block() == 0) return LE_HEADER_PARTLY_OUT;
 			if (stop_at_mt_boundary && consumed > 0 && r.mt_block_size && (r.fed + consumed - r.block_start) % r.mt_block_size == 0) { r.fed += consumed; return LE_MT_BOUNDARY; }
 		} else if (ret == LZMA_BUF_ERROR) {
 			if (action == LZMA_RUN && s.avail_in == 0) { r.fed += consumed; return LE_DONE; }   // idle LZMA_RUN calls in a row: documented, harmless
@@ -271,12 +275,20 @@ static void do_update(Run &r, const Op &op) {
 		else if (!r.any_data) ex = MUST_ACCEPT;                                                       // "when no data has been compressed yet"
 		else ex = (r.since_sync && immediate && r.last_flush == OP_SYNC) ? MUST_ACCEPT : EITHER;
 	}
+	// a quarter of the updates: one of the first allocations made inside lzma_filters_update() fails - a change refused for lack of memory
+	// must leave the encoder usable like any other refused change
+	const bool inject = ((r.hash >> 7) + r.fed + (uint64_t)op.alt * 3 + op.lc) % 4 == 0;
+	uint64_t failed0 = g_alp->failed;
+	if (inject) { g_alp->plan_none(); g_alp->fail_at = g_alp->calls + 1 + ((r.hash >> 11) + r.fed) % 3; }
+	if (r.header_started && ex == MUST_ACCEPT) ex = EITHER;   // (the documented moments are over once the encoder has begun the Block)
 	lzma_ret ret = lzma_filters_update(&r.s, f);
-	if (ret == LZMA_MEM_ERROR) { count("environment_alloc_cap"); r.dead = true; return; }
+	if (inject) g_alp->plan_none();
+	if (ret == LZMA_MEM_ERROR && !(inject && g_alp->failed > failed0)) { count("environment_alloc_cap"); r.dead = true; return; }
+	if (ret == LZMA_MEM_ERROR) count("update_refused_by_injected_allocation_failure");
 	const bool accepted = ret == LZMA_OK;
 	count(std::string("update_") + ex_names[ex] + (accepted ? "_accepted" : "_refused"));
 	count(std::string("update_kind_") + (op.ukind == U_LCLP ? "lclppb" : op.ukind == U_CHAIN ? "chain" : "invalid"));
-	if (ex == MUST_ACCEPT && !accepted) violation("C12:update-refused", "lzma_filters_update (%s) at a documented moment (%s, %llu bytes in the current Block, since_sync=%d) returned %s",
+	if (ex == MUST_ACCEPT && !accepted && ret != LZMA_MEM_ERROR) violation("C12:update-refused", "lzma_filters_update (%s) at a documented moment (%s, %llu bytes in the current Block, since_sync=%d) returned %s",
 		op.ukind == U_LCLP ? "lc/lp/pb" : "new chain", ek_names[r.ek], (unsigned long long)r.in_block(), (int)r.since_sync, drv::retname(ret));
 	if (ex == MUST_REFUSE && accepted) violation("C12:update-accepted", "lzma_filters_update with %s returned LZMA_OK (%s, %llu bytes in the current Block)",
 		invalid ? "an invalid chain" : "changed Filter IDs inside a Block / raw stream", ek_names[r.ek], (unsigned long long)r.in_block());
@@ -285,7 +297,7 @@ static void do_update(Run &r, const Op &op) {
 		// the LZMA2 lc/lp/pb of a chain that it then rejects because of its changed Filter IDs (lz_encoder_update() updates
 		// the last filter before the IDs of the other filters are compared): tolerate both property bytes from here on.
 		// (Between the Blocks of a .xz encoder the whole chain is validated first, so nothing can leak there.)
-		if (!invalid && ids_differ && !lzma1 && (nlc != r.lc || nlp != r.lp || npb != r.pb) && (!r.is_xz() || r.in_block() > 0)) {
+		if (!invalid && ids_differ && !lzma1 && (nlc != r.lc || nlp != r.lp || npb != r.pb) && (!r.is_xz() || r.in_block() > 0 || r.header_started)) {
 			if (r.open_seg) { std::vector<uint8_t> a = r.segs.back().ev.back().alts; a.push_back(props_byte(nlc, nlp, npb));
 				// input supplied since the last flush may still be buffered in front of LZMA2: the leak can reach back to that point
 				r.segs.back().ev.push_back({std::max(r.segs.back().start, r.fed_at_last_flush), props_byte(r.lc, r.lp, r.pb), a}); }
@@ -474,7 +486,14 @@ extern "C" int LLVMFuzzerTestOneInput(const uint8_t *data, size_t size) {
 			// threaded encoder, a feed followed by a chain update: the update may also be made in the middle of the feed, at a moment when
 			// lzma_code has returned with input pending right at an automatic Block boundary (the encoder accepts it: no Block is open)
 			const bool mid = r.ek == EK_MT && r.mt_block_size && i + 1 < r.ops.size() && r.ops[i + 1].kind == OP_UPDATE && r.ops[i + 1].ukind == U_CHAIN && op.n > r.mt_block_size;
-			LoopEnd e = action_loop(r, LZMA_RUN, op.n, what, mid); note_fed(r, before);
+			const bool hdr = r.ek == EK_STREAM && r.in_block() == 0 && op.n > 0 && (r.style == 1 || r.style == 3) && i + 1 < r.ops.size() && r.ops[i + 1].kind == OP_UPDATE && r.ops[i + 1].ukind == U_CHAIN;
+			LoopEnd e = action_loop(r, LZMA_RUN, op.n, what, mid, hdr); note_fed(r, before);
+			if (e == LE_HEADER_PARTLY_OUT) {
+				// a whole-chain update offered while the Block Header of the old chain is half way out: refused or not, Header and data of this Block must belong together
+				count("update_offered_while_block_header_is_partly_written");
+				r.header_started = true; do_update(r, r.ops[i + 1]); r.header_started = false; r.ops[i + 1].kind = OP_FEED; r.ops[i + 1].n = 0;
+				e = action_loop(r, LZMA_RUN, op.n, what); note_fed(r, before);
+			}
 			if (e == LE_MT_BOUNDARY) {
 				const uint64_t rest = before + op.n - r.fed; count("mt_update_offered_at_automatic_block_boundary_with_input_pending");
 				close_segment(r); do_update(r, r.ops[i + 1]); r.ops[i + 1].kind = OP_FEED; r.ops[i + 1].n = 0;   // the update has been made; the op is spent
